@@ -73,16 +73,16 @@ CLAIMED = {
 # what was added after the first registration (appended to the texts above)
 ADD_TEXT = {
  'C01': " Added: the real parse_expr + eval_expr on all operator sequences of 3 (thorough 4) symbolic operands against an independent evaluator written from the manual (precedence, associativity, unary minus), and literal shapes up to the 64-bit boundaries of the radix parsers.",
- 'C03': " Added: Context::describe_unit (the text that names the missing factor in a conformance error) on an arbitrary dimensionality over m, s with a table of six named quantities: the description, read back, denotes exactly that dimensionality (with the reciprocal flag).",
- 'C06': " Added: Number::pretty_unit with the real fast_decompose on an arbitrary dimensionality over kg, m, s and a table of derived units (regrouping preserves the dimensionality, whatever candidate the heuristic picks), and Number::unit_to_string (its text read back denotes the dimensionality); Context::show prints the target constant as integer factor / divisor whose quotient is exactly that constant.",
+ 'C03': " Added: Context::describe_unit (the text that names the missing factor in a conformance error) on an arbitrary dimensionality over m, s with a table of six named quantities: the description, read back, denotes exactly that dimensionality (with the reciprocal flag). Mixed rational / float operands of - and / (float-valued targets): the float result is the exact result up to rounding, operands not swapped. Conversion-target shapes now include negative powers and a unit name on both sides of a quotient.",
+ 'C06': " Added: Number::pretty_unit with the real fast_decompose on an arbitrary dimensionality over kg, m, s and a table of derived units (regrouping preserves the dimensionality, whatever candidate the heuristic picks), and Number::unit_to_string (its text read back denotes the dimensionality); Context::show prints the target constant as integer factor / divisor whose quotient is exactly that constant. Number::with_pretty_unit (the value shown by the non-default digit formats): shown value x shown unit = quantity. How unit-list entries are shown: numeral x the printed unit name, looked up again by the real Context::lookup, = part x unit (real to_list, prettify with the database prefix table, canonicalize) - this reports the open known finding F23.",
  'C10': " Added: `(x <s1>) -> <s2>` with an operand that carries an arbitrary unit is refused whatever the pair of scales (also s1 = s2); parse_query takes a scale token as a scale conversion only when it is the whole target (`-> degC / s`, `-> degF m` are compound targets and refused).",
  'C04': " Added: parse_query on the `-> [digits N] [base B] [target]` suffix with symbolic digits (an accepted base lies in 2..=36), to_duration on float seconds (NaN, infinite, finite), the date offset matcher with hours of 1..10 digits, attempt() on out-of-range offsets.",
  'C07': " Added: Context::canonicalize followed by lookup preserves the value (symbolic database with long/short prefix pairs and names that split two ways); lookup(first); lookup(second) on one context equals lookup(second) on an identical fresh context for 9 name pairs with two prefix readings (history independence); static scan: no iteration over a std HashMap/HashSet in rink-core. Counterexamples are replayed on a Registry built natively from the model. Case variants of `ans` (Ans, aNs) are ordinary names.",
- 'C09': " Added: the Duration reply of eval_query (automatic year/week/day/hour/minute/second breakdown) through the real arm with database constants. What is shown of a breakdown: DurationReply::to_spans lists exactly the non-zero parts (either sign) and always the seconds.",
- 'C14': " Added: parse_date pattern elements (13 numeric elements, fractional seconds of 1..10 digits, offsets +hhmm / +h..h:mm) on symbolic digit strings; attempt() on the offset pattern with chrono's Parsed conversions by contract: the instant carries exactly the offset written and offsets of 24 h or more are refused; to_duration on float seconds. Date +- duration also through chrono's local-time path by contract (naive_local / from_local_datetime with the zone offset an uninterpreted function of the instant for named zones; the replay adds daylight-saving probes in America/New_York and Europe/Berlin); f64::from_str modelled for fraction digits.",
- 'C15': " Added: the parsed query handed to the wrapper is an arbitrary Query (every variant and conversion-target kind), and the post-state obligation covers use_humanize as well as the feature flag, registry and temporaries.",
- 'C16': " Added: counterexamples are replayed on a Substance / symbol table built natively from the model (public fields) and judged with exact fractions. Property outputs may be zero (a formula with a zero count, `H0`): asking for the input of an amount is then refused, never a panic. Substance::get_in_unit (`substance -> c unit`) for one ratio property: shown numeral x printed constant x named units = output / input, with the quantity label of output / input.",
- 'C19': " Second engine (mirsym on the MIR of the same file): one step of each operation from an arbitrary state (usage, peak, limit, sizes, parent failure) and two threads running one operation each with every sequentially consistent interleaving of their atomic operations enumerated as solver-checked decisions; native replay by reaching the state through the public API and by a two-thread stress run (one with a limit both blocks cannot fit under). Layouts of alignment 1, 8 and 16 in the one-step harness (Layout::pad_to_align modelled): usage is accounted in layout.size(), whatever the alignment.",
+ 'C09': " Added: the Duration reply of eval_query (automatic year/week/day/hour/minute/second breakdown) through the real arm with database constants. What is shown of a breakdown: DurationReply::to_spans lists exactly the non-zero parts (either sign) and always the seconds. Unit values of a list may be zero (then the list is refused, never divided by); the UnitList reply of eval_query (`v -> hour;minute;second`) obeys the same law; how entries are shown (see C06; open known finding F23: `0.0005 s -> s;ms` prints `500 millimeter`).",
+ 'C14': " Added: parse_date pattern elements (13 numeric elements, fractional seconds of 1..10 digits, offsets +hhmm / +h..h:mm) on symbolic digit strings; attempt() on the offset pattern with chrono's Parsed conversions by contract: the instant carries exactly the offset written and offsets of 24 h or more are refused; to_duration on float seconds. Date +- duration also through chrono's local-time path by contract (naive_local / from_local_datetime with the zone offset an uninterpreted function of the instant for named zones; the replay adds daylight-saving probes in America/New_York and Europe/Berlin); f64::from_str modelled for fraction digits. attempt() on `hour24:min offset` without a date: the instant has the written time of day in the written offset on the calendar day `now` falls on in that offset (calendar-day contract: day = floor((instant + offset) / 24 h); the replay sets the clock). parse_offset declines hour fields that are not two digits.",
+ 'C15': " Added: the parsed query handed to the wrapper is an arbitrary Query (every variant and conversion-target kind), and the post-state obligation covers use_humanize as well as the feature flag, registry and temporaries. The same one-step harness through rink_core::one_line.",
+ 'C16': " Added: counterexamples are replayed on a Substance / symbol table built natively from the model (public fields) and judged with exact fractions. Property outputs may be zero (a formula with a zero count, `H0`): asking for the input of an amount is then refused, never a panic. Substance::get_in_unit (`substance -> c unit`) for one ratio property: shown numeral x printed constant x named units = output / input, with the quantity label of output / input. Substance / Number scales like multiplication by the reciprocal; Substance + Substance never panics and sums amount-weighted properties; eval_expr takes only substance names, element symbols and well-formed formulas for substances (near misses such as `H2s` are not found).",
+ 'C19': " Second engine (mirsym on the MIR of the same file): one step of each operation from an arbitrary state (usage, peak, limit, sizes, parent failure) and two threads running one operation each with every sequentially consistent interleaving of their atomic operations enumerated as solver-checked decisions; native replay by reaching the state through the public API and by a two-thread stress run (one with a limit both blocks cannot fit under). Layouts of alignment 1, 8 and 16 in the one-step harness (Layout::pad_to_align modelled): usage is accounted in layout.size(), whatever the alignment. The one-step replay includes the parent allocator failing (a 2^60-byte request within the limit).",
 }
 ADD_NOTE = {
  'C03': " describe_unit is no longer stubbed in its own harness (it still is in the conversion harnesses); assumes a non-dimensionless argument, as its only caller guarantees.",
